@@ -4,6 +4,7 @@ p=$1; shift; rev=""; if [ "$1" = "-R" ]; then rev="-R"; shift; fi
 cd /repo && git diff --quiet || { echo "repo dirty"; exit 2; }
 git apply $rev "$p" || { echo "patch does not apply"; exit 2; }
 cd /verif
+export VERIF_EVID_DIR=/verif/work/evid_trial; mkdir -p $VERIF_EVID_DIR
 for prop in "$@"; do
   ./check $prop quick > work/try_$prop.txt 2>&1; rc=$?
   echo "$prop rc=$rc $(grep -E '^(VIOLATION|KNOWN)' work/try_$prop.txt | cut -c1-150 | head -2 | tr '\n' ' ')"
